@@ -1683,6 +1683,108 @@ func TestGocvReplay(t *testing.T) {
 	}
 }
 `}
+	// text decoders (C02): encoding/xml and encoding/json are external; the readers built on them are swept for
+	// explicit panics and failing assertions, and this bounded check feeds them malformed documents
+	replayers["scenario:C02-text"] = &Replayer{PkgDir: ".", Oracle: "a fixed corpus of malformed XML and JSON documents (top-level scalars and null, unknown type names, truncated and spliced documents) plus 20000 seeded random mutations of two encoded messages per encoding are decoded without a panic (an error is the expected outcome)",
+		Template: `package kmip_test
+
+import (
+	"fmt"
+	"math/rand"
+	"testing"
+	"time"
+
+	"github.com/ovh/kmip-go"
+	"github.com/ovh/kmip-go/payloads"
+	"github.com/ovh/kmip-go/ttlv"
+)
+
+func TestGocvReplay(t *testing.T) {
+	raw := []byte{1, 2, 3, 4, 5, 6, 7, 8}
+	ts := time.Unix(1700000000, 0)
+	samples := []any{
+		&kmip.RequestMessage{Header: kmip.RequestHeader{ProtocolVersion: kmip.V1_4, BatchCount: 2, TimeStamp: &ts, ClientCorrelationValue: "c"},
+			BatchItem: []kmip.RequestBatchItem{
+				{Operation: kmip.OperationLocate, UniqueBatchItemID: []byte{1}, RequestPayload: &payloads.LocateRequestPayload{MaximumItems: 3, StorageStatusMask: 3,
+					Attribute: []kmip.Attribute{ {AttributeName: kmip.AttributeNameName, AttributeValue: kmip.Name{NameValue: "n", NameType: kmip.NameTypeUninterpretedTextString}},
+						{AttributeName: kmip.AttributeNameCryptographicUsageMask, AttributeValue: kmip.CryptographicUsageSign | kmip.CryptographicUsageVerify},
+						{AttributeName: "x-custom", AttributeValue: ttlv.Value{Value: int64(7)}}}}},
+				{Operation: kmip.OperationRegister, RequestPayload: &payloads.RegisterRequestPayload{ObjectType: kmip.ObjectTypeSymmetricKey,
+					Object: &kmip.SymmetricKey{KeyBlock: kmip.KeyBlock{KeyFormatType: kmip.KeyFormatTypeRaw, KeyValue: &kmip.KeyValue{Plain: &kmip.PlainKeyValue{KeyMaterial: kmip.KeyMaterial{Bytes: &raw}}}, CryptographicAlgorithm: kmip.CryptographicAlgorithmAES, CryptographicLength: 64}}}},
+			}},
+		&kmip.ResponseMessage{Header: kmip.ResponseHeader{ProtocolVersion: kmip.V1_4, TimeStamp: ts, BatchCount: 1},
+			BatchItem: []kmip.ResponseBatchItem{ {Operation: kmip.OperationGet, ResultStatus: kmip.ResultStatusOperationFailed, ResultReason: kmip.ResultReasonItemNotFound, ResultMessage: "nope"}}},
+	}
+	type codec struct {
+		name string
+		enc  func(any) []byte
+		dec  func([]byte, any) error
+	}
+	codecs := []codec{ {"xml", ttlv.MarshalXML, ttlv.UnmarshalXML}, {"json", ttlv.MarshalJSON, ttlv.UnmarshalJSON}}
+	try := func(c codec, si int, doc []byte, what string) {
+		defer func() {
+			if p := recover(); p != nil {
+				if len(doc) > 160 {
+					doc = doc[:160]
+				}
+				t.Fatalf("GOCV-REPRODUCED: {{.Obligation}}: the %s decoder panics on %s: %v\n input: %q", c.name, what, p, doc)
+			}
+		}()
+		if si == 0 {
+			var m kmip.RequestMessage
+			_ = c.dec(doc, &m)
+		} else {
+			var m kmip.ResponseMessage
+			_ = c.dec(doc, &m)
+		}
+	}
+	corpus := map[string][]string{
+		"json": {"true", "false", "null", "1", "\"x\"", "[]", "[1]", "{}", "{\"tag\":1}", "{\"tag\":\"RequestMessage\",\"type\":\"Nope\",\"value\":[]}",
+			"{\"tag\":\"RequestMessage\",\"type\":7,\"value\":1}", "{\"tag\":\"RequestMessage\",\"value\":[true]}", "{\"tag\":\"RequestMessage\",\"value\":[{\"tag\":\"RequestHeader\",\"type\":\"IBteger\",\"value\":4}]}"},
+		"xml": {"", "x", "<a/>", "<RequestMessage type=\"Nope\"/>", "<RequestMessage><RequestHeader type=\"IBteger\" value=\"1\"/></RequestMessage>", "<RequestMessage><RequestHeader></RequestMessage>",
+			"<ResponseMessage type=\"\" value=\"\"/>"},
+	}
+	for _, c := range codecs {
+		for _, doc := range corpus[c.name] {
+			try(c, 0, []byte(doc), "a malformed document")
+			try(c, 1, []byte(doc), "a malformed document")
+		}
+	}
+	rng := rand.New(rand.NewSource(42))
+	for _, c := range codecs {
+		for si, s := range samples {
+			base := c.enc(s)
+			for i := 0; i < 5000; i++ {
+				b := append([]byte{}, base...)
+				for k := 0; k < 1+rng.Intn(3); k++ {
+					switch rng.Intn(5) {
+					case 0:
+						b[rng.Intn(len(b))] = byte(rng.Intn(256))
+					case 1:
+						b = b[:rng.Intn(len(b))]
+					case 2:
+						p := rng.Intn(len(b))
+						b = append(b[:p], b[p+rng.Intn(len(b)-p):]...)
+					case 3:
+						p, q := rng.Intn(len(b)), rng.Intn(len(b))
+						b[p], b[q] = b[q], b[p]
+					case 4:
+						p := rng.Intn(len(b))
+						ins := []string{"-", "0x", "9999999999999999999999", "\"", "<", "null", "[", "{", "e9", "true", " "}[rng.Intn(11)]
+						b = append(b[:p], append([]byte(ins), b[p:]...)...)
+					}
+					if len(b) == 0 {
+						b = []byte{'x'}
+					}
+				}
+				try(c, si, b, fmt.Sprintf("mutation %d of an encoded message", i))
+			}
+		}
+	}
+}
+`}
+	replayers["prefix:(*ttlv.jsonReader)."] = replayers["scenario:C02-text"]
+	replayers["prefix:(*ttlv.xmlReader)."] = replayers["scenario:C02-text"]
 	// connection faults, sequential part (C11)
 	replayers["scenario:C11"] = &Replayer{PkgDir: "kmipclient", Oracle: "a client whose (re)connection failed can still be closed without panic and its calls fail; a call over connections that all end with EOF dials at most 4 times and returns an error",
 		Template: `package kmipclient
